@@ -130,7 +130,8 @@ Theorem C18_proxy_table :
   forallb (fun pe => match pe_fallback pe with FbTrue | FbOther => false | _ => true end) proxy_table = true /\
   entry_unbound_spec entry_bool = OFallback FbFalse /\ entry_unbound_spec entry_repr = OFallback FbUnboundRepr /\
   entry_unbound_spec entry_getattr = ORuntimeError /\ entry_unbound_spec entry_setattr = ORuntimeError /\
-  60 <= length proxy_table.
+  60 <= length proxy_table /\
+  iop_result = RetInstance /\ 13 <= length (filter pe_iop proxy_table).
 Proof. exact proxy_table_facts. Qed.
 Print Assumptions C18_proxy_table.
 
